@@ -106,7 +106,7 @@ theorem d_gRepeatUntil : Der Γ Δ Z F gRepeatUntil (PLoop Z (PReal Z)) := by
   · rintro lo hi v (⟨_, rfl, va, _, m1, rfl, ⟨t, rfl, a, b, c, d⟩, vb, _, m2, rfl, hcond, rfl, hend⟩ | h)
     · show PLoop Z (PReal Z) lo hi (loopVal [] vb)
       refine PLoop.intro (m := lo) (Pos.le_refl _) (Or.inr (good_real.mono hcond ?_ hend))
-      exact Pos.le_trans a (Pos.le_trans (Pos.lt_le b) c)
+      exact Pos.le_trans a c.1
     · obtain ⟨items, e, m, rfl, hl, he⟩ := h.elim good_real
       exact PLoop.intro hl he
 
